@@ -5,6 +5,7 @@ import ZV.Proofs.C13Shape
 import ZV.Generated.C03
 import ZV.Generated.C13
 import ZV.Proofs.C13Enc
+import ZV.Proofs.C13Time
 /-!
   C13 — OCSP messages round-trip and bind to the issuer's signature.
 
@@ -754,5 +755,31 @@ example : Gen.C13.hashOIDs.lookup (if (4 : Nat) = 0 then 3 else 4) = none := by 
 example : signingParams .p384 0 = .ok (6, 11) := by decide
 /-- on concrete values: a revoked response with reason 1, SHA-256 issuer hash, one extension, P-256 signer: the bytes exist -/
 example : (createResponse (RTemplate.mk 1 (-129) 1700000000 zeroTime 1600000000 1 5 (some [([2, 5, 29, 20], false, [1])])) [1, 2] [3] [0x30, 0x00] 946684800 .p256 0 [9, 9] none matches .ok _) = true := by decide
+
+/-! ### the time leg through the decoder that is tied to the code (`C13Der.parseTime` / `timeOfRaw`) -/
+
+/-- **`C13Der.parseTime` agrees with ZV.Model.Time on the image of the encoder**: for every instant with UTC year 0..9999,
+    the content `appendGeneralizedTime` writes is read by `parseTime 24` (the decoder of `decodeBasic`, T2 `c13 time`) and by
+    `EA.parseGeneralizedTime` (ZV.Model.Time) as the same instant -/
+theorem ocsp_parseTime_agrees (perm : Bool) (u : Int) (hy0 : 0 ≤ (utcTime u).year) (hy1 : (utcTime u).year ≤ 9999) :
+    ∃ body, ZV.Time.EA.appendGeneralizedTime (utcTime u) = .ok body ∧ parseTime 24 body = .ok u ∧
+      ZV.Time.EA.parseGeneralizedTime perm body = .ok (utcTime u) := by
+  refine ⟨ZV.Time.genText (utcTime u), ZV.Time.appendGeneralizedTime_eq _ hy0 hy1, parseTime_genText u hy0 hy1, ?_⟩
+  have := ZV.Time.parseGeneralizedTime_genText perm (utcTime u) hy0 hy1 (by simp [utcTime]) (by simp [utcTime])
+  rw [readBack_utcTime] at this
+  exact this
+
+/-- **times, to the second, through the response decoder**: the element `CreateResponse` writes for `ProducedAt` /
+    `ThisUpdate` / `RevocationTime` is read by `timeOfRaw` — what `decodeBasic` / `decodeSingle` / `revokedOf` apply to those
+    fields — as exactly the template's Unix seconds, whatever `FullBytes` the decoder attached -/
+theorem ocsp_time_decode_roundtrip (u : Int) (hy0 : 0 ≤ (utcTime u).year) (hy1 : (utcTime u).year ≤ 9999) :
+    ∃ body full, timeRaw u = .ok (.raw 0 24 false body full) ∧ ∀ full', timeOfRaw (.raw 0 24 false body full') = .ok u := by
+  refine ⟨ZV.Time.genText (utcTime u), C18.appendTL { cls := 0, tag := 24, len := (ZV.Time.genText (utcTime u)).length, compound := false } ++ ZV.Time.genText (utcTime u), ?_, fun full' => ?_⟩
+  · unfold timeRaw
+    rw [makeTimeBody_gen, timeTag_gen, ZV.Time.appendGeneralizedTime_eq (utcTime u) hy0 hy1]
+    rfl
+  · show (if (0 : Nat) = 0 ∧ ((24 : Nat) = 23 ∨ (24 : Nat) = 24) ∧ false = false then parseTime 24 (ZV.Time.genText (utcTime u)) else Res.err) = .ok u
+    rw [if_pos ⟨rfl, Or.inr rfl, rfl⟩]
+    exact parseTime_genText u hy0 hy1
 
 end ZV.C13
